@@ -88,7 +88,7 @@ class Known:
             if e["property"] != pid or e.get("status") != "known":
                 continue
             for pat in e.get("signatures", []):
-                if fnmatch.fnmatchcase(sig, pat):
+                if fnmatch.fnmatchcase(sig, pat.replace("[", "[[]")):
                     return e
         return None
 
